@@ -89,21 +89,34 @@ def check_name_sets(ctx, eng):
 
 
 def stage_order(eng, builder):
+    """The chain of stage calls of a pipeline builder: every stage takes the
+    value the previous one produced (whatever the variable is called) and
+    the last value is returned."""
     fi = eng.m.func(U + builder)
     order = []
+    cur = fi.params[0] if fi.params else 'headers'
+    chained = True
+    returned = False
     for st in fi.node.body:
-        if isinstance(st, ast.Assign) and isinstance(st.value, ast.Call) and \
-                isinstance(st.value.func, ast.Name):
-            c = st.value
-            ok = len(st.targets) == 1 and isinstance(
-                st.targets[0], ast.Name) and st.targets[0].id == 'headers' \
-                and c.args and isinstance(c.args[0], ast.Name) and \
-                c.args[0].id == 'headers'
-            order.append((c.func.id, ok))
+        if isinstance(st, ast.Assign) and len(st.targets) == 1 and \
+                isinstance(st.targets[0], ast.Name):
+            tgt = st.targets[0].id
+            v = st.value
+            if isinstance(v, ast.Name):
+                if v.id == cur:
+                    cur = tgt           # plain copy of the current value
+                continue
+            if isinstance(v, ast.Call) and isinstance(v.func, ast.Name):
+                ok = bool(v.args) and isinstance(v.args[0], ast.Name) and \
+                    v.args[0].id == cur
+                order.append(v.func.id)
+                chained = chained and ok
+                cur = tgt
+        elif isinstance(st, ast.Return):
+            returned = isinstance(st.value, ast.Name) and st.value.id == cur
     rets = [n for n in ast.walk(fi.node) if isinstance(n, ast.Return)]
-    chained = all(ok for _, ok in order) and len(rets) == 1 and \
-        isinstance(rets[0].value, ast.Name) and rets[0].value.id == 'headers'
-    return fi, [n for n, _ in order], chained
+    chained = chained and returned and len(rets) == 1
+    return fi, order, chained
 
 
 def check_pipelines(ctx, eng, which):
